@@ -23,10 +23,13 @@ sequences), `Lemmas/FaultAppend.lean` (`new_append` establishes the writer invar
 
 A. no panic under any fault, then or later            — `*_no_panic_under_fault`
 B. a fault that is not reached changes nothing          — `*_unreached_fault`
-C. a fault that fires inside a call is that call's error — `fired_fault_is_error*`, with the two
-   places where the crate deliberately ignores a failure made explicit (`Drop`: the discarded result
-   of the implicit `finalize` and the ignored write of a live encoder's destructor; the last seek of
-   `new_append`).  The third one found by this development — the ZIP64 probe seek of
+C. a fault that fires inside a call is that call's error — `fired_fault_is_error*`, with the one
+   place where the crate deliberately ignores a failure made explicit (`Drop`: the discarded result
+   of the implicit `finalize` and the ignored write of a live encoder's destructor).  The last seek of
+   `new_append`, whose result was ignored (`let _ =`), was a defect (D22: every call `Ok`, everything
+   written behind the old central directory) and is repaired (`?`): `append_fired_fault_is_error` now
+   covers every I/O call of `new_append`, `append_repositioning_seek_reported` names that one, and
+   `d22_pre_fix_witness` keeps the finding against the pre-repair definition.  Another one found by this development — the ZIP64 probe seek of
    `ZipArchive::new`, whose failure was taken for "no ZIP64 records" — was a defect (D18) and is
    repaired in two steps: first every failure other than `InvalidInput` was reported, now "no room for a
    locator" is decided from the position of the end record (`probe_skipped_without_room`: no I/O at all)
@@ -36,9 +39,10 @@ D. headline: `all_ok_is_faultfree`, `fault_outcome_dichotomy` (writer), `open_ok
    `read_scenario_dichotomy`, `visit_fired_fault_is_error` / `visit_ok_is_faultfree` (`ZipStreamReader::visit`, ANY visitor
    consumption pattern: full strength since the visitor API drains explicitly), `stream_ok_is_faultfree_partial` (the
    bare `read_zipfile_from_stream`: the full clause is false, K-J), `append_ok_is_faultfree`
+   (no exception any more), `append_all_ok_is_faultfree` (scripts that start with `new_append`)
 E. concrete runs evaluated by the kernel, including the D18 regressions (`d18_regression`,
    `d18_regression_every_kind`) and the witnesses against the pre-repair definitions
-   (`d18_pre_fix_witness`, `d18_invalid_input_pre_fix_witness`).
+   (`d18_pre_fix_witness`, `d18_invalid_input_pre_fix_witness`, `d22_pre_fix_witness`).
 -/
 
 namespace ZipVerif.Props.C11
@@ -334,23 +338,25 @@ example (footer : Eocd) (bs : Bytes) : M.seek (probePos footer) (some 0) (Dev.of
     (.err (.io .invalidInput), (Dev.ofBytesK bs .invalidInput).shift 1) := by
   rw [probe_seek_apply]; exact if_pos rfl
 
-/-- **`new_append`**: a fault that fires before its last seek is reported as an error. -/
+/-- **`new_append`**: a fault that fires — at ANY of its I/O calls, the last, repositioning seek
+included (D22, repaired) — is reported as an error (the injected one; `InvalidArchive` when it hit the
+FIRST seek to the directory start, which the crate maps to that). -/
 theorem append_fired_fault_is_error (k : Nat) (d : Dev)
-    (hf : Fired k d (newAppendCore (some k) d).2) : ∃ e, (newAppend (some k) d).1 = .err e := by
-  obtain ⟨e, he⟩ := newAppendCore_errOnFire k d hf
-  rw [newAppend_eq]
-  exact ⟨e, bind_err_of _ he⟩
+    (hf : Fired k d (newAppend (some k) d).2) : ∃ e, (newAppend (some k) d).1 = .err e :=
+  newAppend_errOnFire k d hf
 
-/-- **The ignored seek of `new_append`** (`let _ = reader.seek(Start(directory_start))`).  The
-failure-free call leaves the sink at the directory start `ds`; when exactly that seek fails the call
-still returns `Ok` with the *same* writer state, and the sink stays where parsing the central
-directory ended (`d1.pos`: behind the old directory, i.e. at the end record).  Entries added afterwards
-are then written behind the old central directory, which remains in the file as dead bytes. -/
-theorem append_ignored_seek {d d1 : Dev} {s : WState} {ds : Nat}
+/-- **The repositioning seek of `new_append` is reported** (`reader.seek(Start(directory_start))?`; the
+crate had `let _ = …`: D22).  The failure-free call leaves the sink at the directory start `ds`; when
+exactly that seek — the last I/O call of `new_append` — fails, the call returns the injected I/O error.
+(Before the repair it returned `Ok` with the *same* writer state and the sink where parsing the central
+directory ended, `d1.pos`: behind the old directory.  Entries added afterwards were written behind the
+old central directory, which remained in the file as dead bytes — every call `Ok`, other bytes:
+`d22_pre_fix_witness`.) -/
+theorem append_repositioning_seek_reported {d d1 : Dev} {s : WState} {ds : Nat}
     (h : newAppendCore none d = (.ok (s, ds), d1)) :
     newAppend none d = (.ok s, { d1.shift 1 with pos := ds }) ∧
-    newAppend (some d1.calls) d = (.ok s, d1.shift 1) :=
-  newAppend_ignored_seek h
+    newAppend (some d1.calls) d = (.err (.io d.fkind), d1.shift 1) :=
+  newAppend_last_seek_reported h
 
 /-! ## D. Headline: `Ok` everywhere ⇒ identical to the failure-free run -/
 
@@ -433,16 +439,26 @@ theorem read_scenario_dichotomy (ext : Ext) (pw : Option Bytes) (k : Nat) (d : D
     .err (.io d.fkind) ∈ (openAndReadAll ext pw (some k) d).2.1 :=
   openAndReadAll_dichotomy ext pw k d
 
-/-- **`new_append`**: `Ok` under a fault carries the failure-free writer state; the sink is the
-failure-free one too, unless the fault hit the last, ignored seek — then only its position differs
-(`append_ignored_seek`). -/
+/-- **`new_append`**: `Ok` under a fault — at any index — is the failure-free result: the same writer
+state and the same sink (bytes, position = the directory start, number of I/O calls).  Full strength
+since the D22 repair: the exception for the last, formerly ignored seek is gone. -/
 theorem append_ok_is_faultfree {k : Nat} {d d' : Dev} {s : WState}
-    (h : newAppend (some k) d = (.ok s, d')) :
-    ∃ ds d1, newAppendCore none d = (.ok (s, ds), d1) ∧
-      newAppend none d = (.ok s, { d1.shift 1 with pos := ds }) ∧
-      (d' = { d1.shift 1 with pos := ds } ∨ (k = d1.calls ∧ d' = d1.shift 1)) :=
+    (h : newAppend (some k) d = (.ok s, d')) : newAppend none d = (.ok s, d') :=
   newAppend_ok_faultfree h
 
+/-- **`all_ok_is_faultfree` for scripts that start with `new_append`.**  Open ANY bytes for appending,
+then any call sequence not containing `drop`, one fault at any index `k` of the whole scenario (inside
+`new_append` or inside any later call): if `new_append` and every later call returned `Ok`, the whole
+scenario is *equal* to the failure-free one — the writer `new_append` returned, the sink it left, the
+return values of all calls, the final writer state and the final sink (bytes, position, number of I/O
+calls). -/
+theorem append_all_ok_is_faultfree (ext : WExt) (calls : List Call)
+    (hnd : ∀ c ∈ calls, isDrop c = false) (k : Nat) (d0 d : Dev) (s : WState)
+    (h : newAppend (some k) d0 = (.ok s, d))
+    (hok : ∀ o ∈ (runCalls ext calls s (some k) d).1, o.isOk = true) :
+    newAppend none d0 = (.ok s, d) ∧
+    runCalls ext calls s (some k) d = runCalls ext calls s none d :=
+  ⟨append_ok_is_faultfree h, all_ok_is_faultfree ext calls hnd s k d hok⟩
 
 /-! ## E. Non-vacuity: concrete runs, evaluated by the kernel -/
 
@@ -542,18 +558,67 @@ example : C05.okEntries (openArchive none (Dev.ofBytes C05.emptyZip)).1 = some 0
       C05.isErr (openArchive (some k) (Dev.ofBytesK C05.emptyZip .invalidInput)).1) = true := by
   decide +kernel
 
-/-- `new_append` on `C05.oneEntry` (`append_ignored_seek`): 36 I/O calls; the failure-free call
-leaves the sink at the directory start 32; with its last seek (call 35) failing it still returns `Ok`,
-the same entry list, and the sink stays at 79 — the position of the end record. -/
+/-- `new_append` on `C05.oneEntry` (`append_repositioning_seek_reported`): 36 I/O calls; the
+failure-free call leaves the sink at the directory start 32; with its last seek (call 35) failing it
+returns the injected I/O error … -/
 example :
     (match newAppend none (Dev.ofBytes C05.oneEntry), newAppend (some 35) (Dev.ofBytes C05.oneEntry) with
-    | (.ok s, d), (.ok s', d') =>
-      d.pos == 32 && d'.pos == 79 && d.calls == 36 && d'.calls == 36 &&
-      s.files.map (·.fileName) == s'.files.map (·.fileName) && s.files.length == 1
+    | (.ok s, d), (.err (.io .injected), d') =>
+      d.pos == 32 && d.calls == 36 && d'.calls == 36 && s.files.length == 1
     | _, _ => false) = true := by decide +kernel
-/-- … and every earlier fault index makes `new_append` fail. -/
-example : (List.range 35).all (fun k =>
+/-- … as EVERY fault index of the call does (`append_fired_fault_is_error` is not vacuous at any of the
+36 calls), so the hypothesis of `append_ok_is_faultfree` holds exactly for `k` outside the call. -/
+example : (List.range 36).all (fun k =>
     C05.isErr (newAppend (some k) (Dev.ofBytes C05.oneEntry)).1) = true := by decide +kernel
+example : (newAppend (some 36) (Dev.ofBytes C05.oneEntry)).1.isOk = true := by decide +kernel
+
+/-- `append_all_ok_is_faultfree` is not vacuous: append one entry onto `C05.oneEntry` and finish, the
+fault (index 1000) beyond the scenario's I/O calls: `new_append` and every call return `Ok`. -/
+example :
+    (match newAppend (some 1000) (Dev.ofBytes C05.oneEntry) with
+    | (.ok s, d) =>
+      (runCalls ext0 [.startFile [0x62] (opts .stored none), .write [1, 2, 3], .finish] s (some 1000) d).1.all
+        (·.isOk)
+    | _ => false) = true := by decide +kernel
+
+open M in
+/-- `new_append` as it was before the D22 repair: the result of the last seek ignored (`let _ =`).  Local
+copy, used only by `d22_pre_fix_witness`. -/
+def newAppendPreD22 : M WState := do
+  let (footer, cdeStart) ← findAndParseEocd
+  if footer.diskNumber != footer.diskWithCd then throw .unsupportedArchive else do
+    let (archiveOffset, directoryStart, numberOfFiles) ← getDirectoryCounts footer cdeStart
+    if directoryStart > cdeStart then throw .invalidArchive else
+    let r ← attempt (seek (.start directoryStart))
+    match r with
+    | .error _ => throw .invalidArchive
+    | .ok _ =>
+      let files ← newAppend.loop archiveOffset numberOfFiles
+      let _ ← attempt (seek (.start directoryStart))
+      pure { WState.init with files, comment := footer.comment, writingRaw := true }
+
+/-- the scenario of `d22_pre_fix_witness`: open `C05.oneEntry` for appending (pre-repair definition), add
+the stored entry `b` = `[1, 2, 3]`, finish -/
+def d22Run (fa : Option Nat) : Option (List Cls × Bytes × Nat) :=
+  match newAppendPreD22 fa (Dev.ofBytes C05.oneEntry) with
+  | (.ok s, d) =>
+    let r := runCalls ext0 [.startFile [0x62] (opts .stored none), .write [1, 2, 3], .finish] s fa d
+    some (r.1.map cls, r.2.2.buf, r.2.2.pos)
+  | _ => none
+
+/-- **The finding (`d22_pre_fix_witness`), against the pre-repair definition** (replayed on the crate
+before the repair: `corpus/fault.ops`).  With the repositioning seek (I/O call 35) failing, `new_append`
+on the 101-byte `C05.oneEntry` returned `Ok` with the sink at 79 — the end record — instead of 32, the
+directory start; `start_file`, `write` and `finish` then all return `Ok` as in the failure-free run, but
+the new entry and the new directory are written BEHIND the old central directory, which stays in the
+file as 47 dead bytes: every call `Ok`, a result that is not the failure-free one — which C11 forbids. -/
+theorem d22_pre_fix_witness :
+    (match d22Run none, d22Run (some 35) with
+    | some (o, b, p), some (o', b', p') =>
+      o == [.ok, .ok, .ok] && o' == o && b != b' && b'.length == b.length + 47 && p' == p + 47 &&
+      b'.take 79 == C05.oneEntry.take 79
+    | _, _ => false) = true := by
+  decide +kernel
 
 /-- The streaming reader on the same bytes: every fault index inside the run is the injected error. -/
 example : (List.range (streamVisit storedExt none (Dev.ofBytes C05.oneEntry)).2.calls).all (fun k =>
